@@ -447,9 +447,21 @@ def _split_tuple_assignments(tree):
                             b_ = b_.value
                         if not isinstance(t, ast.Name):
                             written.add(ast.unparse(b_))
-                    pure_rhs = not written or not any(isinstance(x, (ast.Call, ast.Await, ast.Yield, ast.NamedExpr)) for v in st.value.elts for x in ast.walk(v))
-                    if pure_rhs and not any(isinstance(x, ast.Name) and x.id in names for v in st.value.elts for x in ast.walk(v)) \
-                            and not any(ast.unparse(x) in written for v in st.value.elts for x in ast.walk(v) if isinstance(x, (ast.Attribute, ast.Name))):
+                    # sequential form `t1 = v1; t2 = v2; ..` is the same as the parallel one when no v_j reads a target assigned before it
+                    # (it may read its OWN target's old value: `self.x, self.y = append(self.x, a), append(self.y, b)`)
+                    def tkey(t):
+                        b_ = t
+                        while isinstance(b_, ast.Subscript):
+                            b_ = b_.value
+                        return ast.unparse(b_)
+                    tkeys = [tkey(t) for t in st.targets[0].elts]
+                    safe = True
+                    for j, v in enumerate(st.value.elts):
+                        reads = {ast.unparse(x) for x in ast.walk(v) if isinstance(x, (ast.Attribute, ast.Name))}
+                        if any(tk in reads for tk in tkeys[:j]):
+                            safe = False
+                    pure_rhs = safe
+                    if pure_rhs and (len(set(tkeys)) == len(tkeys)):
                         for t, v in zip(st.targets[0].elts, st.value.elts):
                             out.append(ast.copy_location(ast.Assign(targets=[t], value=v, lineno=st.lineno), st))
                         k += 1
@@ -1038,6 +1050,17 @@ def _more_statement_spellings(tree):
                             k += 1
                         elif isinstance(st.value.op, (ast.Add, ast.Mult)) and ast.unparse(st.value.right) == tt and tt not in ast.unparse(st.value.left):
                             blk[i] = ast.copy_location(ast.AugAssign(target=st.targets[0], op=st.value.op, value=st.value.left), st)
+                            k += 1
+                    # if E != 1.0: T = E * T   ->   T = E * T      (multiplying by exactly 1.0 changes nothing)
+                    elif isinstance(st, ast.If) and not st.orelse and len(st.body) == 1 and isinstance(st.body[0], ast.Assign) \
+                            and isinstance(st.test, ast.Compare) and len(st.test.ops) == 1 and isinstance(st.test.ops[0], ast.NotEq) \
+                            and ast.unparse(st.test.comparators[0]) in ("1.0", "1") and isinstance(st.body[0].value, ast.BinOp) \
+                            and isinstance(st.body[0].value.op, ast.Mult) and len(st.body[0].targets) == 1 and isinstance(st.body[0].targets[0], ast.Name):
+                        a_ = st.body[0]
+                        e_, t_ = ast.unparse(st.test.left), a_.targets[0].id
+                        l_, r_ = ast.unparse(a_.value.left), ast.unparse(a_.value.right)
+                        if {l_, r_} == {e_, t_} and not any(isinstance(x, ast.Call) for x in ast.walk(st.test.left)):
+                            blk[i] = a_
                             k += 1
                     # running minimum
                     elif isinstance(st, ast.Assign) and len(st.targets) == 1 and isinstance(st.targets[0], ast.Name) and i + 1 < len(blk) \
